@@ -46,11 +46,17 @@ function is copied into every branch.)
 
 Fragments (`frag=[…]`): one statement or condition of a function selected by a path of (`Kind`, k-th in source order) steps
 and `body` / `cond` / `then` / `else` / `init` — the condition or one iteration of a loop over the AEL, the code between two
-loops.  Locals declared outside the fragment are arguments (and results, if assigned).
+loops.  Locals declared outside the fragment are arguments (and results, if assigned).  (`Call:F`, k) selects the k-th call of `F`
+(a call statement of an untranslated / skeleton callee is logged with its record arguments by path and its scalar arguments as
+integers, an omitted argument as `default`: this is how the call sites of CheckJoinLeft/Right are put under the tie); `lhs` / `rhs`
+select an operand of a binary operator.
 
 Doubles (`dbl=True`, `opaque=(callee,…)`): double arithmetic is not translated.  The listed callees (`CrossProduct`,
 `DotProduct`, `GetSegmentIntersectPt`) become function parameters of the generated definition, doubles are values of an
 abstract type `D` with `<`, `=` and the literal 0; a `Point64&` the function fills in is a pair of result fields.
+An `opaque` callee applied to records and compared with a floating literal other than 0 (`PerpendicDistFromLineSqrd(pt, prev->bot,
+prev->top) > 0.25` in CheckJoinLeft; no `dbl` needed) is ONE Boolean argument of the generated definition named after the call site:
+`<callee>_<record arguments by path>_<gt|lt|ge|le|eq|ne>_<literal>` (`opaque_compare`).  Theorems bind it by that name.
 
 A definition of `UNIT_LEVEL_FAILURE` that cannot be translated turns its whole unit into a file that does not compile; any
 other one is just missing from the generated file (reported under `contained_errors`), so that exactly the theorems that
@@ -366,6 +372,8 @@ class Fn:
                 rd = cur["referencedDecl"]
                 if rd["kind"] == "VarDecl" and rd["name"] in self.aliases:
                     root = self.aliases[rd["name"]]
+                    if root == NULLPATH:
+                        raise TranslationError("%s: use of the pointer local %s while it is nullptr" % (self.lean_name, rd["name"]))
                     break
                 if rd["kind"] == "VarDecl" and self.frag is not None and rd["name"] not in self.locals_ and \
                         rd["name"] not in self.consts and (is_pointer(qual(cur)) or self.is_record(cur)):
@@ -553,6 +561,9 @@ class Fn:
             a, b = inner(n)
             if op in ("==", "!=") and (is_pointer(qual(a)) or is_pointer(qual(b))):
                 return self.ptr_compare(op, a, b, n)
+            oc = self.opaque_compare(op, a, b, n)
+            if oc is not None:
+                return oc
             ta = lean_type(qual(a))
             tr = lean_type(qual(n))
             ea = self.expr(a)
@@ -863,6 +874,44 @@ class Fn:
             self.err(n, "opaque callee %s used at two different types" % nm)
         return "(%s %s)" % (nm, " ".join(args)), outs_, rty
 
+    def opaque_compare(self, op, a, b, n):
+        """`Callee(records…) > 0.25` for a configured *opaque* callee (double arithmetic that is not entered) compared with a
+        floating literal other than 0: ONE Boolean argument of the generated definition, named after the call site
+        (`<callee>_<record arguments by path>_<gt|lt|ge|le|eq|ne>_<literal>`), so that the callee, what it is applied to, the
+        comparison and the threshold are all part of the name a theorem binds the argument by"""
+        if op not in ("<", ">", "<=", ">=", "==", "!=") or not self.opaque:
+            return None
+
+        def bare(x):
+            while x.get("kind") in ("ImplicitCastExpr", "ParenExpr", "ExprWithCleanups", "MaterializeTemporaryExpr"):
+                x = inner(x)[0]
+            return x
+
+        ca, cb = bare(a), bare(b)
+        if cb.get("kind") == "CallExpr" and ca.get("kind") == "FloatingLiteral":
+            ca, cb = cb, ca
+            op = {"<": ">", ">": "<", "<=": ">=", ">=": "<="}.get(op, op)
+        if not (ca.get("kind") == "CallExpr" and cb.get("kind") == "FloatingLiteral"):
+            return None
+        nm = self.callee_name(inner(ca)[0])
+        if nm not in self.opaque:
+            return None
+        if float(cb.get("value", "1")) == 0 and _DBL[0]:
+            return None      # `dbl` specs: comparison of an abstract double with 0 (translated as before)
+        names = []
+        for arg in inner(ca)[1:]:
+            if not self.is_record(arg):
+                self.err(n, "scalar argument of opaque callee %s in a comparison with a literal" % nm)
+            r = self.record_name(arg, n)
+            if r == NULLPATH:
+                self.err(n, "nullptr passed to opaque callee %s" % nm)
+            names.append(r)
+        lit = re.sub(r"[^0-9A-Za-z]", "_", str(cb.get("value")).replace("-", "m"))
+        word = {"<": "lt", ">": "gt", "<=": "le", ">=": "ge", "==": "eq", "!=": "ne"}[op]
+        full = "_".join([nm] + names + [word, lit])
+        self.members[full] = "Bool"
+        return full
+
     def is_record(self, a):
         try:
             lean_type(qual(a))
@@ -1164,7 +1213,9 @@ class Fn:
                     if init:
                         tgt = self.alias_target(init[0], v)
                         if tgt is None:
-                            self.err(v, "pointer local initialised with nullptr")
+                            if not self.skel:
+                                self.err(v, "pointer local initialised with nullptr")
+                            tgt = NULLPATH      # names no record until it is assigned (`chain` refuses to follow it)
                         self.aliases[nm] = tgt
                     continue
                 if value_record(qual(v)):
@@ -1193,6 +1244,15 @@ class Fn:
             lhs, rhs = inner(s)
             if op == "=" and is_pointer(qual(lhs)) and self.strip_ptr(lhs).get("kind") == "DeclRefExpr" and \
                     self.strip_ptr(lhs)["referencedDecl"]["kind"] == "VarDecl":
+                r0 = self.strip_ptr(rhs)
+                if self.skel and (r0.get("kind") == "CXXNewExpr" or (
+                        r0.get("kind") in ("CallExpr", "CXXMemberCallExpr") and not self.is_accessor_call(r0))):
+                    # the result of `new` / of an untranslated callee: a record the function did not receive
+                    nm = self.strip_ptr(lhs)["referencedDecl"]["name"]
+                    code = self.action(r0, s, result=nm)
+                    self.aliases[nm] = nm
+                    self.roots.add(nm)
+                    return code + cont()
                 tgt = self.alias_target(rhs, s)
                 if tgt is None:
                     self.err(s, "pointer local set to nullptr")
@@ -1256,6 +1316,9 @@ class Fn:
             nm = self.strip_ptr(inner(s)[1])["referencedDecl"]["name"]
             vals = self.record_fields(inner(s)[2], s)
             return "".join("let %s_%s := %s\n" % (nm, f_, v_) for (f_, _), v_ in zip(self.rec_outs[nm], vals)) + cont()
+        if k == "CXXOperatorCallExpr" and self.skel and self.callee_name(inner(s)[0]) == "operator=" and len(inner(s)) == 3 and \
+                self.strip_ptr(inner(s)[1]).get("kind") == "MemberExpr" and value_record(qual(inner(s)[1])):
+            return self.member_write(s, "=", self.strip_ptr(inner(s)[1]), inner(s)[2]) + cont()      # `e->bot = e->top;`
         if k in ("ExprWithCleanups",):
             return self.stmts(inner(s) + rest, k_norm, k_break)
         self.err(s)
@@ -1714,7 +1777,8 @@ class Fn:
         if self.frag is not None:
             sel = select_fragment(body, self.frag, self.lean_name)
             self.frag_is_loop_body = self.frag[-1] == "body"
-            if sel.get("kind", "").endswith("Stmt"):
+            if sel.get("kind", "").endswith("Stmt") or (sel.get("kind") in ("CallExpr", "CXXMemberCallExpr") and
+                                                        sel.get("type", {}).get("qualType") == "void"):
                 stmts = [sel]
                 self.ret_type = "Unit"
                 if self.probing_exit(sel) and not self.probing_exit(sel, returns=False):
@@ -1856,9 +1920,20 @@ def select_fragment(body, frag, lean_name):
             kind, ordinal = step
             found = []
 
+            def call_name(x):
+                c = inner(x)[0] if inner(x) else {}
+                while c.get("kind") in ("ImplicitCastExpr", "ParenExpr"):
+                    c = inner(c)[0]
+                if c.get("kind") == "DeclRefExpr":
+                    return c["referencedDecl"].get("name")
+                return c.get("name") if c.get("kind") == "MemberExpr" else None
+
             def walk(x, top=False):
                 if not top and x.get("kind") == kind:
                     found.append(x)
+                elif not top and kind.startswith("Call:") and x.get("kind") in ("CallExpr", "CXXMemberCallExpr") and \
+                        call_name(x) == kind[5:]:
+                    found.append(x)      # (`Call:F`, k): the k-th call of `F` in source order
                 for c in inner(x):
                     walk(c)
 
@@ -1879,6 +1954,12 @@ def select_fragment(body, frag, lean_name):
             cur = kids[1]
         elif step == "init" and k == "VarDecl" and kids:
             cur = kids[-1]
+        elif step in ("lhs", "rhs"):
+            while cur.get("kind") in ("ImplicitCastExpr", "ParenExpr", "ExprWithCleanups", "MaterializeTemporaryExpr") and inner(cur):
+                cur = inner(cur)[0]
+            if cur.get("kind") != "BinaryOperator":
+                raise TranslationError("%s: fragment selector %s: `%s` of a %s" % (lean_name, frag, step, cur.get("kind")))
+            cur = inner(cur)[0 if step == "lhs" else 1]
         elif step == "then" and k == "IfStmt":
             cur = kids[1]
         elif step == "else" and k == "IfStmt" and len(kids) > 2:
@@ -2299,6 +2380,32 @@ ENGINE_SPECS = [
     dict(c="BuildPath64", lean="BuildPath64_guard", frag=[("IfStmt", 0), "cond"]),
     # the removal test of CleanCollinear's loop; `DotProduct` (double arithmetic) stays a function parameter
     dict(c="CleanCollinear", lean="CleanCollinear_removable", frag=[("IfStmt", 2), "cond"], dbl=True, opaque=("DotProduct",)),
+    # --- second widening: the JOIN DECISIONS.  `PerpendicDistFromLineSqrd(pt, a, b) > 0.25` (double arithmetic, not entered) is ONE
+    # Boolean argument named after the call site (callee, record arguments, comparison, literal: see `opaque_compare`)
+    dict(c="CheckJoinLeft", lean="CheckJoinLeft", skel=True, opaque=("PerpendicDistFromLineSqrd",)),
+    dict(c="CheckJoinRight", lean="CheckJoinRight", skel=True, opaque=("PerpendicDistFromLineSqrd",)),
+    # the call sites of CheckJoinLeft / CheckJoinRight with their `pt` and `check_curr_x` arguments (`default` = argument omitted)
+    dict(c="UpdateEdgeIntoAEL", lean="UpdateEdgeIntoAEL", skel=True, accessors=("NextVertex",)),
+    dict(c="InsertLocalMinimaIntoAEL", lean="InsertLocalMinima_joinLeft", frag=[("Call:CheckJoinLeft", 0)]),
+    dict(c="InsertLocalMinimaIntoAEL", lean="InsertLocalMinima_joinRight", frag=[("Call:CheckJoinRight", 0)]),
+    dict(c="ProcessIntersectList", lean="ProcessIntersectList_joinLeft", frag=[("Call:CheckJoinLeft", 0)]),
+    dict(c="ProcessIntersectList", lean="ProcessIntersectList_joinRight", frag=[("Call:CheckJoinRight", 0)]),
+    dict(c="DoHorizontal", lean="DoHorizontal_joinLeft", frag=[("Call:CheckJoinLeft", 0)]),
+    dict(c="DoHorizontal", lean="DoHorizontal_joinRight", frag=[("Call:CheckJoinRight", 0)]),
+    # --- ring surgery: which end, the duplicate tests, which record survives (pointer assignments are logged)
+    dict(c="AddOutPt", lean="AddOutPt", skel=True),
+    dict(c="JoinOutrecPaths", lean="JoinOutrecPaths", skel=True),
+    dict(c="DuplicateOp", lean="DuplicateOp", skel=True),
+    # --- UpdateHorzSegment: the four walk conditions, the `!hs.left_op->horz` conjunct, the final marking
+    dict(c="UpdateHorzSegment", lean="UpdateHorzSegment_condP1", frag=[("WhileStmt", 0), "cond"]),
+    dict(c="UpdateHorzSegment", lean="UpdateHorzSegment_condN1", frag=[("WhileStmt", 1), "cond"]),
+    dict(c="UpdateHorzSegment", lean="UpdateHorzSegment_condP2", frag=[("WhileStmt", 2), "cond"]),
+    dict(c="UpdateHorzSegment", lean="UpdateHorzSegment_condN2", frag=[("WhileStmt", 3), "cond"]),
+    dict(c="UpdateHorzSegment", lean="UpdateHorzSegment_unmarked", frag=[("VarDecl", 8), "init", "rhs"]),
+    dict(c="UpdateHorzSegment", lean="UpdateHorzSegment_mark", frag=[("IfStmt", 1)]),
+    # --- TrimHorz: the second `break` test (is the vertex just reached a local maximum) and the tail
+    dict(c="TrimHorz", lean="TrimHorz_isMax", frag=[("IfStmt", 1), "cond"]),
+    dict(c="TrimHorz", lean="TrimHorz_tail", frag=[("IfStmt", 2)]),
 ]
 # functions of unit Core that unit Engine calls with Point64 arguments
 ENGINE_EXTERNS = ("CrossProductSign", "IsCollinear")
